@@ -71,7 +71,9 @@ def run(module, cfg, tag, env=None, workers=16, simulate=None, depth=None, cover
             f.write(text)
         if name == module:
             root = os.path.join(d, name + ".tla")
-    cmd = ["java", "-XX:+UseParallelGC", "-Xmx" + heap, "-Xss64m",
+    jtmp = os.path.join(d, "jtmp")          # TLC leaves an empty tlc-<n> directory per run in java.io.tmpdir: keep it in the scratch
+    os.makedirs(jtmp, exist_ok=True)
+    cmd = ["java", "-XX:+UseParallelGC", "-Xmx" + heap, "-Xss64m", "-Djava.io.tmpdir=" + jtmp,
            "-DTLA-Library=" + SPEC + os.pathsep + d,
            "-cp", JAR + ":" + DEPS, "tlc2.TLC",
            "-workers", str(workers), "-metadir", os.path.join(d, "meta"),
